@@ -41,7 +41,8 @@ def _inputs(name, members, rng):
         if s not in seen:
             seen.add(s)
             out.append(s)
-    return out
+    # parsing is a function of the string: every input is parsed a second time, in reverse order, after all the others have been seen
+    return out + out[::-1]
 
 
 def _call_sites():
